@@ -147,6 +147,27 @@ def run_group(tape):
     used = {ln["term"] for ln in links}
     outcome = [None]
     cycles = [0]
+    # in some runs the same group object is started a second time after it was cancelled;
+    # in between a terminal may have left the state the group left it in (dropped back
+    # with an error, or was power-cycled): the second start is judged like the first
+    restart = tape.chance("c14/restart-group", 35)
+    between = [tape.draw("c14/between-runs", 4) for _ in sims] if restart else []
+    second = {"marks": None, "outcome": None}
+
+    async def one_start(sg, out):
+        task = sg.start()
+        done, pending = await asyncio.wait([task], timeout=0.15)
+        if pending:
+            out[0] = "running"
+            task.cancel()
+            await asyncio.wait([task], timeout=0.5)
+        elif task.cancelled():
+            out[0] = "cancelled"
+        else:
+            e = task.exception()
+            out[0] = "returned" if e is None else type(e).__name__
+            out.append(str(e))
+        await asyncio.sleep(0.02)
 
     async def main(loop):
         await ec.connect()
@@ -157,19 +178,23 @@ def run_group(tape):
             cycles[0] += 1
             return orig(data)
         sg.update_devices = update_devices
-        task = sg.start()
-        done, pending = await asyncio.wait([task], timeout=0.15)
-        if pending:
-            outcome[0] = "running"
-            task.cancel()
-            await asyncio.wait([task], timeout=0.5)
-        elif task.cancelled():
-            outcome[0] = "cancelled"
-        else:
-            e = task.exception()
-            outcome[0] = "returned" if e is None else type(e).__name__
-            outcome.append(str(e))
-        await asyncio.sleep(0.02)
+        await one_start(sg, outcome)
+        if restart and outcome[0] == "running":
+            world.count("c14/group-started-again")
+            for st, what in zip(sims, between):
+                st.al_delay = lambda frm, to: 0
+                st.al_spontaneous_error = lambda: 0
+                st.al_fail = lambda frm, to: 0
+                if what == 2:
+                    world.count("c14/terminal-dropped-back-between-runs")
+                    st.al_state, st.al_error, st.al_code = PREOP, True, 0x1b
+                elif what == 3:
+                    world.count("c14/terminal-power-cycled-between-runs")
+                    st.al_state, st.al_error, st.al_code = INIT, False, 0
+            second["marks"] = [len(st.al_log) for st in sims]
+            out2 = [None]
+            await one_start(sg, out2)
+            second["outcome"] = out2
 
     violations = []
 
@@ -183,38 +208,48 @@ def run_group(tape):
         except SimStall as e:
             viol("never-returned", f"group start-up: {e}", scenario="group")
         loop_exc = env.loop_exceptions()
-    error_seen = None
-    for k, st in enumerate(sims):
-        if k not in used:
-            continue
-        log = st.al_log
-        pos = 0
-        if log and log[0][0] == "r" and log[0][1] & 0x10:
-            pos = 2 if len(log) > 1 and log[1] == ("w", 0x11) else 1
-        safeop_confirmed = False
-        for i, (kind, v) in enumerate(log):
-            if i < pos:
+
+    def judge_start(logs, outcome, which, **extra):
+        error_seen = None
+        for k, st in enumerate(sims):
+            if k not in used:
                 continue
-            if kind == "r":
-                if v & 0x10 and error_seen is None and not any(
-                        kk == "w" and vv & 0xf == OP for kk, vv in log[:i]):
-                    error_seen = (k, i, v)
-                if v & 0xf in (SAFEOP, OP) and not v & 0x10:
-                    safeop_confirmed = True
-            elif v & 0xf == OP and not safeop_confirmed:
-                viol("next-request-before-confirmation",
-                     f"T{k} (start {cfgs[k]}): OPERATIONAL requested before a status read "
-                     f"reported SAFE-OPERATIONAL; AL log {log[:24]}", scenario="group")
-    if error_seen is not None and outcome[0] != "EtherCatError":
-        k, i, v = error_seen
-        viol("error-not-raised",
-             f"T{k} (start {cfgs[k]}) reported an error (status {v:#x}, event {i}) while the "
-             f"group brought it up, the group's task ended as {outcome[0]!r} after "
-             f"{cycles[0]} cycles; AL log {sims[k].al_log[:24]}", scenario="group")
-    if error_seen is None and outcome[0] not in ("running", None) and not violations:
-        viol("raised-without-error", f"the group's task ended as {outcome} although no "
-             f"terminal reported an error; logs {[st.al_log[:12] for st in sims]}",
-             scenario="group")
+            log = logs[k]
+            pos = 0
+            if log and log[0][0] == "r" and log[0][1] & 0x10:
+                pos = 2 if len(log) > 1 and log[1] == ("w", 0x11) else 1
+            safeop_confirmed = False
+            for i, (kind, v) in enumerate(log):
+                if i < pos:
+                    continue
+                if kind == "r":
+                    if v & 0x10 and error_seen is None and not any(
+                            kk == "w" and vv & 0xf == OP for kk, vv in log[:i]):
+                        error_seen = (k, i, v)
+                    if v & 0xf in (SAFEOP, OP) and not v & 0x10:
+                        safeop_confirmed = True
+                elif v & 0xf == OP and not safeop_confirmed:
+                    viol("next-request-before-confirmation",
+                         f"{which}T{k} (start {cfgs[k]}): OPERATIONAL requested before a status "
+                         f"read reported SAFE-OPERATIONAL; AL log {log[:24]}", scenario="group",
+                         **extra)
+        if error_seen is not None and outcome[0] != "EtherCatError":
+            k, i, v = error_seen
+            viol("error-not-raised",
+                 f"{which}T{k} (start {cfgs[k]}) reported an error (status {v:#x}, event {i}) "
+                 f"while the group brought it up, the group's task ended as {outcome[0]!r} "
+                 f"after {cycles[0]} cycles; AL log {logs[k][:24]}", scenario="group", **extra)
+        if error_seen is None and outcome[0] not in ("running", None) and not violations:
+            viol("raised-without-error", f"{which}the group's task ended as {outcome} although "
+                 f"no terminal reported an error; logs {[lg[:12] for lg in logs]}",
+                 scenario="group", **extra)
+
+    marks = second["marks"]
+    judge_start([st.al_log[:marks[k]] if marks else st.al_log for k, st in enumerate(sims)],
+                outcome, "")
+    if marks and second["outcome"] is not None:
+        judge_start([st.al_log[marks[k]:] for k, st in enumerate(sims)], second["outcome"],
+                    "second start: ", restart=True)
     for m, tn, txt in loop_exc:
         if tn != "CancelledError":
             viol("library-task-died", f"{m}: {txt}", exception=tn, scenario="group")
@@ -241,7 +276,7 @@ def run(tape, scenario):
     env = Env(tape, faults=wf)
     world = env.world
     n = 1 if scenario == "single" else 2 + tape.draw("c14/nterm", 3)
-    terms, cfgs = [], []
+    terms, cfgs, overlap = [], [], {}
     for k in range(n):
         t = env.bus.add_terminal(SimTerminal(env.bus, f"T{k}", station=1001 + k))
         start = tape.pick("c14/start", ORDER)
@@ -285,13 +320,44 @@ def run(tape, scenario):
         target = tape.pick("c14/target", [OP, SAFEOP, PREOP])
         terms.append(t)
         cfgs.append((start, err, target, maxd, fault_kind))
+        # two callers at once on one healthy terminal, with different targets (each of
+        # them is judged on its own: it returns only once the terminal reported its target)
+        if scenario == "concurrent" and not err and fault_kind < 3 and slow_at is None \
+                and tape.chance("c14/two-callers", 15):
+            other = tape.pick("c14/other-target", [x for x in (OP, SAFEOP, PREOP) if x != target])
+            overlap[k] = (other, [0, 30e-6, 200e-6, 1e-3][tape.draw("c14/caller-gap", 4)])
     outcomes = [None] * n
     ec = EtherCat("sim0")
+    callers = {}
 
     async def drive(k):
         term = Terminal(ec)
         term.position = 1001 + k
         term.name = f"T{k}"
+        if k in overlap:
+            world.count("c14/two-callers-with-different-targets")
+            res = callers[k] = []
+
+            async def call(tg):
+                try:
+                    await term.to_operational(MachineState(tg))
+                    res.append((tg, "returned", len(terms[k].al_log)))
+                except asyncio.CancelledError:
+                    res.append((tg, "pending", len(terms[k].al_log)))
+                    raise
+                except Exception as e:
+                    res.append((tg, f"{type(e).__name__}: {e}", len(terms[k].al_log)))
+            a = asyncio.ensure_future(call(cfgs[k][2]))
+            await asyncio.sleep(overlap[k][1])
+            b = asyncio.ensure_future(call(overlap[k][0]))
+            # (a caller that waits for exactly the state the other one has already left
+            # behind waits for ever: not judged, it is cancelled)
+            await asyncio.wait([a, b], timeout=0.1)
+            for f in (a, b):
+                f.cancel()
+            await asyncio.wait([a, b])
+            outcomes[k] = "two-callers"
+            return
         try:
             await term.to_operational(MachineState(cfgs[k][2]))
             outcomes[k] = "returned"
@@ -320,6 +386,37 @@ def run(tape, scenario):
         loop_exc = env.loop_exceptions()
     for k, t in enumerate(terms):
         start, err, target, maxd, fk = cfgs[k]
+        if outcomes[k] == "two-callers":
+            log = t.al_log
+            top = max(target, overlap[k][0])
+            high = [v for kind, v in log if kind == "w" and v > top]
+            if high:
+                violations.append({"rule": "request-above-target", "params": {"two_callers": True},
+                                   "detail": f"T{k}: requests {high}, targets {target} and "
+                                             f"{overlap[k][0]}; log={log[:30]}"})
+                break
+            for tg, out, upto in callers[k]:
+                if out == "pending":
+                    world.count("c14/caller-left-waiting-by-the-other")
+                    continue
+                if out != "returned":
+                    # (the two walks can cross, e.g. one steps the terminal down again and
+                    # the other then asks for an illegal transition: not judged)
+                    world.count("c14/caller-failed-next-to-the-other")
+                    continue
+                if not any(kind == "r" and not v & 0x10 and (v & 0xf) in ORDER
+                           and ORDER.index(v & 0xf) >= ORDER.index(tg)
+                           for kind, v in log[:upto]):
+                    violations.append({"rule": "returned-before-target",
+                                       "params": {"two_callers": True},
+                                       "detail": f"T{k} (start {NAMES[start]}): the caller for "
+                                                 f"{NAMES[tg]} returned after {upto} AL events, "
+                                                 f"none of which reported {NAMES[tg]} or above; "
+                                                 f"log={log[:30]}"})
+                    break
+            if violations:
+                break
+            continue
         if outcomes[k] is None:
             violations.append({"rule": "never-returned", "params": {},
                                "detail": f"T{k} cfg={cfgs[k]} log={t.al_log[-8:]}"})
